@@ -682,9 +682,11 @@ where
         }
 
         let volume_idx = data.get_volume_by_id(dir_info.raw_volume)?;
-        match &data.open_volumes[volume_idx].volume_type {
+        match &mut data.open_volumes[volume_idx].volume_type {
             VolumeType::Fat(fat) => {
-                fat.delete_directory_entry(&mut data.block_cache, dir_info, &sfn)?
+                fat.delete_directory_entry(&mut data.block_cache, dir_info, &sfn)?;
+                // The entry is gone, so give the file's clusters back.
+                fat.free_cluster_chain(&mut data.block_cache, dir_entry.cluster)?;
             }
         }
 
